@@ -79,6 +79,8 @@ type Config struct {
 	Server   string      `json:"server"`
 	Plain    bool        `json:"plain"`
 	Remotes  [][2]string `json:"remotes,omitempty"` // name, password
+	// QueueSize is Info.ChannelPackageQueueSize: 0 = 1000 (roomy), -1 = 0 (unbuffered), n = n
+	QueueSize int `json:"package_queue_size,omitempty"`
 }
 
 // Script is what the server answers.
@@ -150,6 +152,12 @@ func NewSession(cfg Config) *Session {
 	s.bg, s.cancelBg = context.WithCancel(context.Background())
 	s.info = &tds.Info{Info: dsn.Info{Host: cfg.Server, Port: "5000", Username: cfg.User, Password: cfg.Password}, ClientHostname: cfg.Host,
 		ChannelPackageQueueSize: 1000, PacketReadTimeout: 5}
+	switch {
+	case cfg.QueueSize < 0:
+		s.info.ChannelPackageQueueSize = 0
+	case cfg.QueueSize > 0:
+		s.info.ChannelPackageQueueSize = cfg.QueueSize
+	}
 	if s.info.Host == "" {
 		s.info.Host = "srv"
 	}
@@ -173,6 +181,11 @@ func NewSession(cfg Config) *Session {
 func (s *Session) Close() {
 	s.cancelBg()
 	s.pipe.Close()
+	// a reader parked on a full package queue only wakes up when its channel is closed
+	go func() {
+		defer func() { recover() }()
+		s.conn.Close()
+	}()
 	deadline := time.After(3 * time.Second)
 	for {
 		select {
